@@ -607,7 +607,8 @@ class convert_to_dot_bracket:
                 "assert graph_exact(graph, regions)",
                 "forall a | assert implies(a in graph, graph[a] == nbrs(regions, a))",
                 # only the bound is needed below: the defining facts of max / map / len (lambda terms) are dropped
-                "summarize LB as 1 <= max_order and max_order <= 30 and graph_exact(graph, regions)"]},
+                "assert len(regions) >= 1",
+                "summarize LB as 1 <= max_order and max_order <= 30 and len(regions) >= 1 and graph_exact(graph, regions)"]},
         {"when": "after", "at": "problem = pulp.LpProblem(", "label": "problem", "do": ["let P0 = problem"]},
         {"when": "before", "at": "for i in range(len(regions))", "label": "variables",
          "do": ["let A1 = frontier()", "let GI = fill(0, 0)", "let GJ = fill(0, 0)"]},
